@@ -1,13 +1,17 @@
 import TexelVerif.Chess.Mate
 import TexelVerif.Score.Claims
 import TexelVerif.TT.TableLemmas
+import TexelVerif.Bridge.SearchGuards
 /-!
 # C04 — announced mates are real
 
 Two layers.  (1) The *claim calculus*: semantics `Sound` of a search result (score, bound) at a ply in terms of forced
 mates within a ply budget, and the soundness of the rules by which negaScout produces mate claims (terminal mate,
-negamax step, all-moves-searched, hash-table ply shift) — DESIGN.md Appendix A maps rules to return sites; the map is by
-reading (partial).  (2) The *audit*: every `score mate N` the real engine prints is checked against the specification
+negamax step, all-moves-searched, hash-table ply shift, and the pruning sites) — DESIGN.md Appendix A maps rules to return
+sites.  For the sites listed under "sites of search.cpp" below the guard expression and the returned (score, bound) are
+regenerated from the current source (Generated/SearchGuards, tools/kernels.json `"site"` entries) and
+Bridge/SearchGuards.lean proves that they meet the rule's side condition; which values flow into those expressions
+(e.g. that the score returned by razoring comes from `quiesce` outside check) is still by reading (partial).  (2) The *audit*: every `score mate N` the real engine prints is checked against the specification
 through certificates (strategy trees found by an untrusted solver) whose checkers are proven sound here.
 -/
 namespace Props.C04
@@ -59,6 +63,106 @@ theorem tt_shift_is_table_shift (d : TT.W) (s p1 p2 : Int) (hw : s > 16000) (hp 
   unfold TT.getScore
   rw [TT.rawScore_setScore d s p1 (by omega) (by omega), e, TT.fromStored_def]
   split <;> omega
+
+/-! ### pruning rules and the sites of search.cpp they are tied to (Bridge/SearchGuards) -/
+
+/-- every derivation built from the rules (terminal mate, no-claim results, negamax step, all moves, exact, relabel,
+    hash shift) is sound -/
+theorem derivations_sound {P} (G : Cl.Game P) (p : P) (ply : Nat) (s : Int) (b : Cl.Bound) (h : Cl.Derivable G p ply s b) :
+    Cl.Sound G p ply s b := Cl.derivable_sound G p ply s b h
+
+/-- move loop with late-move pruning / futility: if every skipped move passed its guard and the node still ends with a
+    lose score, then no move was skipped (every move was searched, with a score ≤ the final one) -/
+theorem rule_pruned_loop (best : Int) (es : List Cl.MoveEv) (hg : Cl.GuardedRun best es) (hl : Cl.isLose (Cl.runLoop best es)) :
+    ∀ e ∈ es, ∃ s, e = .searched s ∧ s ≤ Cl.runLoop best es := Cl.guarded_lose_all_searched best es hg hl
+
+/-- …and without the guard of late-move pruning that fails -/
+theorem rule_pruned_loop_needs_guard_witness : Cl.isLose (Cl.runLoop (-31999) [.searched (-31990), .lmp]) ∧
+    ¬ (∀ e ∈ [Cl.MoveEv.searched (-31990), Cl.MoveEv.lmp], ∃ s, e = Cl.MoveEv.searched s ∧ s ≤ Cl.runLoop (-31999) [.searched (-31990), .lmp]) :=
+  Cl.unguarded_lmp_witness
+
+open Gen.SearchGuards in
+/-- site: late-move pruning in the current search.cpp skips a move only while `bestScore` is not a lose score
+    (and `normalBound`, computed as `¬isLose α ∧ ¬isWin β`, holds) -/
+theorem site_lmp (alpha beta limit bestScore mi : Int) (h : lmpCond (normalBound := normalBound (alpha := alpha) (beta := beta)) (lmpMoveCountLimit := limit) (bestScore := bestScore) (mi := mi) = true) :
+    Cl.MoveEv.Guarded bestScore .lmp ∧ ¬ Cl.isLose alpha ∧ ¬ Cl.isWin beta :=
+  ⟨(Bridge.SearchGuards.lmp_guard_sound_unfolded alpha beta limit bestScore mi h).1, (Bridge.SearchGuards.lmp_guard_sound_unfolded alpha beta limit bestScore mi h).2⟩
+
+open Gen.SearchGuards in
+/-- site: futility-pruned moves get a score that is not a lose score (static evaluation + margin) -/
+theorem site_futility (bestScore evalScore fs margin score : Int) (he : ¬ Cl.isLose evalScore) (hm : 0 ≤ margin) :
+    Cl.MoveEv.Guarded bestScore (.fut (futMoveScore (futilityScore := futScore (evalScore := evalScore) (futilityScore := fs) (margin := margin)) (score := score))) :=
+  Bridge.SearchGuards.fut_event_guarded bestScore evalScore fs margin score he hm
+
+open Gen.SearchGuards in
+/-- site: moves are pruned only after a legal move was searched, so `haveLegalMoves = false` at the end of the loop
+    means there is none (stalemate / mate detection) -/
+theorem site_prune_gate (haveLegalMoves : Bool) (pass : Int) (mayReduce givesCheck ppp : Bool)
+    (h : pruneGate (haveLegalMoves := haveLegalMoves) (pass := pass) (mayReduce := mayReduce) (givesCheck := givesCheck) (opq_passedPawnPush := ppp) = true) : haveLegalMoves = true :=
+  (Bridge.SearchGuards.prune_gate_sound haveLegalMoves pass mayReduce givesCheck ppp h).1
+
+open Gen.SearchGuards in
+/-- site: the null-move cut of the current search.cpp returns a sound result whenever its entry guard held -/
+theorem site_null {P} (G : Cl.Game P) (p : P) (ply : Nat) (alpha beta depth score : Int) (inCheck allowNull singularSearch : Bool)
+    (h : nullEntryCond (alpha := alpha) (beta := beta) (depth := depth) (inCheck := inCheck) (sti_allowNullMove := allowNull) (singularSearch := singularSearch) = true) :
+    ∃ b, Bridge.SearchGuards.boundOf (nullRet (beta := beta) (score := score)).2 = some b ∧ Cl.Sound G p ply (nullRet (beta := beta) (score := score)).1 b :=
+  Bridge.SearchGuards.null_rule G p ply alpha beta depth score inCheck allowNull singularSearch h
+
+open Gen.SearchGuards in
+/-- site: the mate-distance cut returns a correct upper bound that claims nothing, and its negation claims nothing at
+    the parent -/
+theorem site_mdp {P} (G : Cl.Game P) (p : P) (alpha beta : Int) (ply : Nat) (hply : ply < 1000) (hab : alpha < beta)
+    (h : mdpCut (alpha := alpha) (beta := mdpBeta (beta := beta) (ply := ply)) = true) :
+    Cl.Sound G p ply (mdpRet (alpha := alpha)) .upper ∧ Cl.NoClaim (-(mdpRet (alpha := alpha))) .lower :=
+  Bridge.SearchGuards.mdp_rule G p alpha beta ply hply hab h
+
+open Gen.SearchGuards in
+/-- site: razoring returns an upper bound; sound when the quiescence score is not a lose score -/
+theorem site_razor {P} (G : Cl.Game P) (p : P) (ply : Nat) (score : Int) (hs : ¬ Cl.isLose score) :
+    ∃ b, Bridge.SearchGuards.boundOf (razorRet (score := score)).2 = some b ∧ Cl.Sound G p ply (razorRet (score := score)).1 b :=
+  Bridge.SearchGuards.razor_rule G p ply score hs
+
+open Gen.SearchGuards in
+/-- site: reverse futility returns `eval − margin` as a lower bound; sound when the evaluation is not a win score -/
+theorem site_revfut {P} (G : Cl.Game P) (p : P) (ply : Nat) (evalScore margin : Int) (he : ¬ Cl.isWin evalScore) (hm : 0 ≤ margin) :
+    ∃ b, Bridge.SearchGuards.boundOf (revFutRet (evalScore := evalScore) (margin := margin)).2 = some b ∧ Cl.Sound G p ply (revFutRet (evalScore := evalScore) (margin := margin)).1 b :=
+  Bridge.SearchGuards.revfut_rule G p ply evalScore margin he hm
+
+open Gen.SearchGuards in
+/-- site: mated node — the score `illegalScore` that remains when no move was legal, and the explicit return inside
+    the 50-move test, are the terminal rule's score -/
+theorem site_mated {P} (G : Cl.Game P) (p : P) (ply : Nat) (b : Cl.Bound) (hm : Cl.mated G p = true) (hply : ply < 1000) :
+    Cl.Sound G p ply (illegalScore (ply := ply)) b ∧ Cl.Sound G p ply (draw50MatedRet (ply := ply)).1 b :=
+  Bridge.SearchGuards.mated_rule G p ply b hm hply
+
+open Gen.SearchGuards in
+/-- site: fail high overridden by a lose score of the hash entry (entry sound for this node) -/
+theorem site_fail_high_override {P} (G : Cl.Game P) (p : P) (ply : Nat) (entScore : Int → Int) (entType score tType : Int)
+    (hent : ∀ b, Bridge.SearchGuards.boundOf entType = some b → Cl.Sound G p ply (entScore ply) b) (hsc : Cl.Sound G p ply score .lower) :
+    ∃ b, Bridge.SearchGuards.boundOf (failHighOverride (ply := ply) (ent_getScore := entScore) (ent_getType := entType) (score := score) (tType := tType)).2 = some b ∧
+         Cl.Sound G p ply (failHighOverride (ply := ply) (ent_getScore := entScore) (ent_getType := entType) (score := score) (tType := tType)).1 b :=
+  Bridge.SearchGuards.fail_high_override_rule G p ply entScore entType score tType hent hsc
+
+open Gen.SearchGuards in
+/-- site: fail low overridden by a win score of the hash entry -/
+theorem site_fail_low_override {P} (G : Cl.Game P) (p : P) (ply : Nat) (alpha : Int) (entScore : Int → Int) (entType bestScore tType : Int)
+    (hent : ∀ b, Bridge.SearchGuards.boundOf entType = some b → Cl.Sound G p ply (entScore ply) b) (hsc : Cl.Sound G p ply bestScore .upper) :
+    ∃ b, Bridge.SearchGuards.boundOf (failLowOverride (alpha := alpha) (ply := ply) (ent_getScore := entScore) (ent_getType := entType) (bestScore := bestScore) (tType := tType)).2 = some b ∧
+         Cl.Sound G p ply (failLowOverride (alpha := alpha) (ply := ply) (ent_getScore := entScore) (ent_getType := entType) (bestScore := bestScore) (tType := tType)).1 b :=
+  Bridge.SearchGuards.fail_low_override_rule G p ply alpha entScore entType bestScore tType hent hsc
+
+open Gen.SearchGuards in
+/-- site (quiesce): a node is entered with `inCheck = true` only at depths where no evasion is skipped, and starts from
+    the mated score instead of a stand-pat value -/
+theorem site_quiesce_in_check (depth mi ply score : Int) (givesCheck : Bool) (h : qNextInCheck (depth := depth) (givesCheck := givesCheck) = true) :
+    qSkipCond (depth := depth - 1) (mi := mi) = false ∧ qInCheckScore (ply := ply) (score := score) = -(Cl.MATE0 - (ply + 1)) :=
+  ⟨Bridge.SearchGuards.q_incheck_no_skip depth mi givesCheck h, Bridge.SearchGuards.q_incheck_score ply score⟩
+
+-- the guards are satisfiable (the site theorems are not vacuous)
+example : Gen.SearchGuards.lmpCond (Gen.SearchGuards.normalBound 10 11) 3 (-50) 5 = true := by decide
+example : Gen.SearchGuards.nullEntryCond 10 11 5 false true false = true := by decide
+example : Gen.SearchGuards.mdpCut 31998 (Gen.SearchGuards.mdpBeta 31999 1) = true := by decide
+example : Gen.SearchGuards.qNextInCheck 0 true = true := by decide
 
 -- non-vacuity: K+Q vs K, Qg6-g7 mates (the hypotheses of `WinIn.mate` are satisfiable)
 def kqk : Pos := { b := (Vector.replicate 64 0 |>.set 63 BKING |>.set 45 WKING |>.set 46 WQUEEN), wtm := true, castle := 0, ep := none, hmc := 0, fmc := 1 }
